@@ -498,6 +498,17 @@ def check_header(ctx, r, can, day, step):
     ctx.counters.inc("header_compared")
 
 
+def error_chain(e):
+    out = []
+    while e is not None and len(out) < 6:
+        out.append(repr(e)[:300])
+        rt = getattr(e, "_sim_remote_traceback", None)
+        if rt:
+            out.append(rt[:1500])
+        e = e.__cause__ or e.__context__
+    return out
+
+
 def check_run(ctx, program, r, can, can_records, want_keys, fail_key, day, multi, step):
     lines = r["out"].split("\n")
     trailing = lines.pop()
@@ -535,7 +546,7 @@ def check_run(ctx, program, r, can, can_records, want_keys, fail_key, day, multi
         raise Violation("line_not_intact", "records for loci that were not requested: %r" % sorted(extra), step=step)
     if fail_key is None:
         if r["error"] is not None:
-            raise Violation("unexpected_failure", "run without any fault raised %r" % (r["error"],), step=step, detail={"error": repr(r["error"])[:300]})
+            raise Violation("unexpected_failure", "run without any fault raised %r" % (r["error"],), step=step, detail={"error": repr(r["error"])[:300], "chain": error_chain(r["error"])})
         missing = [k for k in want_keys if k not in seen]
         if missing:
             raise Violation("missing_record", "loci silently omitted: %r" % missing, step=step, detail={"multi_core": multi})
